@@ -21,7 +21,8 @@ LEVEL = "fault_enumeration"
 RULE = ("G_prog 'py' programs with tagged user-function call sites (inline calls, call statements, calls in "
         "guards, loop bodies, yields); for each program every (site, invocation) pair of a fault-free run of k "
         "steps (0-3 before, the faulted one, 1-3 after) is faulted once with a distinct exception object, in the "
-        "interpreter and in generated Python. distinct = (script, site, invocation, backend); non-trivial = the "
+        "interpreter and in generated Python; plus hand-built chains with calls in statement guards, half of them "
+        "ordered through Nop statements, with repeated call-less guards. distinct = (script, site, invocation, backend); non-trivial = the "
         "faulted step writes at least one persistent variable or yields")
 ASSUMPTIONS = [
     "user functions are pure apart from the injected fault; the exception types injected are ordinary ones "
